@@ -123,7 +123,19 @@ impl Check for C08Check {
         let mut facts = Facts::default();
         fault_facts(&case.program, &mut facts);
         let p = &case.program;
-        let run = run_program(p, &case.cfg, usize::MAX, false);
+        // size of the tree per the reference (first-answer choices), for the engine's step budget
+        let r0 = R1::new(p, refint::Opts { choice_script: None, fuel: 30_000, unfold: 1, ..Default::default() }).run();
+        if r0.cut {
+            return CaseResult { verdict: Verdict::Inconclusive("reference out of fuel".into()), facts };
+        }
+        let mut cfg = case.cfg.clone();
+        cfg.quanta_budget = finite_budget(4 * r0.steps, 4 * r0.answers.len());
+        // (a head that floods without ever unifying spins inside trunc until the work cap: keep it low)
+        cfg.work_cap = cfg.work_cap.max(cfg.quanta_budget.saturating_mul(3));
+        let run = run_program(p, &cfg, usize::MAX, false);
+        if run.end == End::Exhausted {
+            facts.metrics.insert("quanta_needed_over_budget", run.stats.quanta as f64 / cfg.quanta_budget as f64);
+        }
         facts.trace_hash = run.stats.trace_hash;
         facts.stats.push(run.stats.clone());
         match &run.end {
